@@ -41,7 +41,7 @@ for name in "${NAMES[@]}"; do
   baseline="skipped"
   if [ $BASE -eq 1 ]; then
     if (cd "$SCRATCH/repo" && CARGO_NET_OFFLINE=true timeout 1200 cargo test --workspace --no-fail-fast --offline >"$SCRATCH/baseline-$name.log" 2>&1); then baseline="pass"; else
-      if grep -q "^error" "$SCRATCH/baseline-$name.log"; then baseline="does-not-compile"; else baseline="fail:$(grep -E '^test .* FAILED' "$SCRATCH/baseline-$name.log" | awk '{print $2}' | tr '\n' ',' )"; fi
+      if grep -q "could not compile" "$SCRATCH/baseline-$name.log"; then baseline="does-not-compile"; else baseline="fail:$(grep -E '^test .* FAILED' "$SCRATCH/baseline-$name.log" | awk '{print $2}' | tr '\n' ',' )"; fi
     fi
   fi
   caught=""; missed=""; broken=""
